@@ -88,19 +88,68 @@ class Ctx:
         self.t0 = time.time()
         self.notes: List[str] = []
         self.coq_log = ""
+        try:
+            self.changed_files = changed_fingerprints(prop_id, self.repo)
+        except Exception:
+            self.changed_files = []
+        # anchored source differs from the recorded baseline: explore deeper than a plain quick run
+        self.escalated = bool(self.changed_files) and tier == "quick" and not os.environ.get("VERIF_NO_ESCALATE")
 
     @property
     def thorough(self) -> bool:
         return self.tier == "thorough"
 
     def pick(self, quick, thorough):
-        return thorough if self.thorough else quick
+        if self.thorough:
+            return thorough
+        if self.escalated and type(quick) is int and type(thorough) is int and thorough > quick > 0:
+            return int((quick * thorough) ** 0.5)
+        return quick
 
     def cleanup(self):
         shutil.rmtree(self.scratch, ignore_errors=True)
 
     def run_driver(self, lines, timeout=3000):
         return run_driver(self.driver, lines, timeout=timeout)
+
+
+# --------------------------------------------------------------------------
+# Source fingerprints (DESIGN 3.2): a changed anchored file is not an alarm, it escalates the
+# correspondence budget of a quick run (ctx.pick returns a value between quick and thorough).
+
+def anchor_files(prop_id: str) -> List[str]:
+    for line in open(os.path.join(VERIF, "properties.jsonl")):
+        p = json.loads(line)
+        if p["id"] == prop_id:
+            return list(p["anchors"]["files"])
+    return []
+
+
+def file_fingerprint(path: str) -> str:
+    try:
+        data = open(path, "rb").read()
+    except OSError:
+        return "missing"
+    if path.endswith(".py"):
+        try:
+            import ast
+            return hashlib.sha1(ast.dump(ast.parse(data), include_attributes=False).encode()).hexdigest()
+        except SyntaxError:
+            return "syntax-error"
+    return hashlib.sha1(data).hexdigest()
+
+
+def fingerprints(prop_id: str, repo: str) -> Dict[str, str]:
+    return {f: file_fingerprint(os.path.join(repo, f)) for f in anchor_files(prop_id)}
+
+
+def changed_fingerprints(prop_id: str, repo: str) -> List[str]:
+    p = os.path.join(VERIF, "harness", "fingerprints.json")
+    if not os.path.exists(p):
+        return []
+    base = json.load(open(p)).get(prop_id, {})
+    cur = fingerprints(prop_id, repo)
+    return sorted(f for f in cur if base.get(f) not in (None, cur[f]))
 
 
 # --------------------------------------------------------------------------
@@ -573,6 +622,8 @@ def _do_check(mod, ctx: Ctx) -> int:
         else:
             ctx.notes.append(f"known finding {kf.get('id')} no longer reproduces: {detail}")
     extra["known_findings_replayed"] = known_lines
+    extra["fingerprints_changed"] = ctx.changed_files
+    extra["escalated_budget"] = ctx.escalated
     extra["notes"] = ctx.notes
 
     failing = [o for o in obligations if not o.ok]
